@@ -394,7 +394,15 @@ func (e *Exec) Settle(stableFor, maxWait time.Duration) {
 	}
 	start := time.Now()
 	why := ""
+	lastIter := time.Now()
 	for {
+		// load watchdog: if this loop itself was not scheduled for a quarter of a second the controllers' timers
+		// may have been late as well, so the stability window starts again (a starved machine never produces
+		// a "stranded" verdict; it ends in the inconclusive maxWait instead)
+		if time.Since(lastIter) > 250*time.Millisecond {
+			e.W.InjectedFault()
+		}
+		lastIter = time.Now()
 		select {
 		case <-e.W.Crashed:
 			e.handleCrash()
